@@ -23,22 +23,24 @@ type chainSpec struct {
 	lonelyOK map[string]map[int]string
 	optional bool // the function does not exist in every configuration
 	allSame  bool // every stage, including the first and the last, has the same shape
+	lastLike bool // the last stage has the interior shape up to its shift amounts (the top limb is narrower)
+	carryW   bool // the carry handed to stage i is the previous stage's sum shifted right by that limb's width
 }
 
 var chainSpecs = []chainSpec{
 	{pkg: "internal/curve25519", name: "Copy", out: "P0", allSame: true},
 	{pkg: "internal/curve25519", name: "Add", out: "P0", allSame: true},
-	{pkg: "internal/curve25519", name: "AddAfterBasic", out: "P0"},
-	{pkg: "internal/curve25519", name: "AddReduce", out: "P0"},
-	{pkg: "internal/curve25519", name: "Sub", out: "P0", lonelyOK: map[string]map[int]string{"32": {4: "32-bit Sub carries only limbs 0..3 (partial carry, as upstream): limb 4 receives the last carry but is not masked"}}},
-	{pkg: "internal/curve25519", name: "SubAfterBasic", out: "P0"},
-	{pkg: "internal/curve25519", name: "SubReduce", out: "P0"},
-	{pkg: "internal/curve25519", name: "Neg", out: "P0"},
+	{pkg: "internal/curve25519", name: "AddAfterBasic", out: "P0", carryW: true},
+	{pkg: "internal/curve25519", name: "AddReduce", out: "P0", carryW: true},
+	{pkg: "internal/curve25519", name: "Sub", out: "P0", carryW: true, lonelyOK: map[string]map[int]string{"32": {4: "32-bit Sub carries only limbs 0..3 (partial carry, as upstream): limb 4 receives the last carry but is not masked"}}},
+	{pkg: "internal/curve25519", name: "SubAfterBasic", out: "P0", carryW: true},
+	{pkg: "internal/curve25519", name: "SubReduce", out: "P0", carryW: true},
+	{pkg: "internal/curve25519", name: "Neg", out: "P0", carryW: true},
 	{pkg: "internal/curve25519", name: "SwapConditional", out: "P0", allSame: true},
 	{pkg: "internal/curve25519", name: "SwapConditional", out: "P1", allSame: true},
-	{pkg: "internal/modm", name: "reduce", out: "P0"},
-	{pkg: "internal/modm", name: "Add", out: "P0"},
-	{pkg: "internal/modm", name: "barrettReduce", out: "P0", arrays: []string{"P0", "P2"}},
+	{pkg: "internal/modm", name: "reduce", out: "P0", lastLike: true},
+	{pkg: "internal/modm", name: "Add", out: "P0", carryW: true},
+	{pkg: "internal/modm", name: "barrettReduce", out: "P0", arrays: []string{"P0", "P2"}, lastLike: true},
 	{pkg: "internal/modm", name: "SubVartime", out: "P0"},
 	{pkg: "internal/ge25519", name: "moveConditionalBytes64", out: "P0", optional: true, allSame: true},
 	{pkg: "internal/ge25519", name: "moveConditionalBytes32", out: "P0", optional: true, allSame: true},
@@ -121,6 +123,53 @@ func ruleUnrolledChains(r *rep.Report, p *load.Program) {
 				}
 				r.Fail("U-uniform-stages", cfg, subj, ssau.Pos(p, fn.Pos()), fmt.Sprintf("chain:%s:%s:stage%d", cs.name, cs.out, d),
 					fmt.Sprintf("stage %d of %s (pattern %s) deviates from its siblings: %s  vs neighbour  %s", d, cs.name, pat, trunc(sigs[d], 300), trunc(near, 300)))
+			}
+			// the carry/borrow handed from stage to stage has one shape (stage 1 receives the boundary form)
+			links, lshifts := u.LinksShifts(stages, arrs)
+			if cs.carryW {
+				for i := 1; i < len(stages); i++ {
+					if lshifts[i] < 0 {
+						continue // this layout's variant carries nothing into stage i
+					}
+					want := limbWidth(p, cs.pkg, i-1)
+					if lshifts[i] != want {
+						bad++
+						r.Fail("U-uniform-stages", cfg, cs.name+": the carry into stage i is the previous sum shifted by that limb's width", ssau.Pos(p, fn.Pos()), fmt.Sprintf("chain:%s:%s:carryw%d", cs.name, cs.out, i),
+							fmt.Sprintf("stage %d of %s receives a carry shifted by %d, limb %d is %d bits wide", i, cs.name, lshifts[i], i-1, want))
+					}
+				}
+			}
+			if len(stages) >= 4 {
+				count := map[string]int{}
+				for i := 2; i < len(links); i++ {
+					if links[i] != "" {
+						count[links[i]]++
+					}
+				}
+				ref, best := "", 0
+				for k, c := range count {
+					if c > best || (c == best && k < ref) {
+						ref, best = k, c
+					}
+				}
+				if len(count) > 1 {
+					for i := 2; i < len(links); i++ {
+						if links[i] != "" && (links[i] != ref || best == 1) {
+							bad++
+							r.Fail("U-uniform-stages", cfg, cs.name+": the carry/borrow handed from stage to stage has one shape", ssau.Pos(p, fn.Pos()), fmt.Sprintf("chain:%s:%s:link%d", cs.name, cs.out, i),
+								fmt.Sprintf("stage %d of %s receives  %s  from the stages below, its siblings receive  %s", i, cs.name, trunc(links[i], 300), trunc(ref, 300)))
+						}
+					}
+				}
+			}
+			if cs.lastLike && len(stages) >= 4 {
+				np, nsigs := u.ClassesNoShift(stages, arrs)
+				last := len(np) - 1
+				if np[last] != np[last-1] {
+					bad++
+					r.Fail("U-uniform-stages", cfg, cs.name+": the top-limb stage has the interior shape up to its shift amounts", ssau.Pos(p, fn.Pos()), fmt.Sprintf("chain:%s:%s:last", cs.name, cs.out),
+						fmt.Sprintf("last stage of %s (pattern %s ignoring shifts) deviates: %s  vs  %s", cs.name, np, trunc(nsigs[last], 300), trunc(nsigs[last-1], 300)))
+				}
 			}
 			if bad == 0 {
 				n++
@@ -219,3 +268,18 @@ func trunc(s string, n int) string {
 }
 
 var _ = strings.HasPrefix
+
+// limbWidth returns the nominal width of limb i in the given package's layout.
+func limbWidth(p *load.Program, pkg string, i int) int {
+	if pkg == "internal/modm" {
+		v, _ := lit.ConstInt(p.Pkg("internal/modm"), "BitsPerLimb")
+		if v != nil {
+			return int(v.Int64())
+		}
+		return 0
+	}
+	if fieldLimbs(p) == 5 {
+		return 51
+	}
+	return 26 - i%2
+}
